@@ -15,6 +15,7 @@
 package fs
 
 import (
+	"errors"
 	"fmt"
 	"io/fs"
 	"log/slog"
@@ -524,7 +525,8 @@ func (f *dirFS) Mknod(name string, mode uint32, dev int) error {
 	if f.caseSensitiveOnDisk(name) {
 		err := unix.Mknod(filepath.Join(f.base, name), mode, dev)
 		// what if we could not create it? Just create a regular file there, and memory will override
-		if err != nil {
+		// (not when the name is taken: that would empty an existing file; the overlay reports ErrExist below)
+		if err != nil && !errors.Is(err, unix.EEXIST) {
 			if err := os.WriteFile(filepath.Join(f.base, name), nil, 0); err != nil {
 				return err
 			}
